@@ -578,6 +578,10 @@ theorem benignP_applyCmd (s : St) (c : Cmd) : BenignP s (applyCmd s c) := by
       · exact (BenignS.refl s).toP
       · p_same
     · exact (BenignS.refl s).toP
+  case ewrAdd e wr v sys =>
+    split
+    · p_push_same
+    · exact (BenignS.refl s).toP
 
 end Cobweb
 
